@@ -129,6 +129,10 @@ fn sched_from(bytes: &[u8]) -> Vec<Step> {
 
 /// Run one target on one input. Returns every finding (empty = held).
 pub fn run_target(target: &str, data: &[u8]) -> Vec<Finding> {
+    // with logging enabled down to `trace`, the arguments of every log statement in the
+    // library are evaluated (they may index or unwrap on input-derived values); the default
+    // no-op logger discards the records
+    log::set_max_level(log::LevelFilter::Trace);
     rustradio::verif::set_stream_size(None);
     let mut out = Vec::new();
     let (head, body) = data.split_at(data.len().min(4));
